@@ -36,9 +36,9 @@ fn jobs(plan: &Plan) -> Vec<Job> {
             standalone("alloc-probe", "alloc-probe-growth", 0, alloc_probe),
         ];
     }
-    let mut v = entry_jobs(plan, "C17", "presized", t.pick(120, 400, 1), |d| d.flags.structural);
-    v.extend(stack_jobs(plan, "C17", "stack-presized", t.pick(30, 100, 0), |d| d.flags.structural));
-    v.extend(entry_jobs(plan, "C17", "growth", t.pick(2, 6, 0), |d| !d.flags.coded && plain(d) && d.flags.heap));
+    let mut v = entry_jobs(plan, "C17", "presized", t.pick(120, 4000, 1), |d| d.flags.structural);
+    v.extend(stack_jobs(plan, "C17", "stack-presized", t.pick(30, 600, 0), |d| d.flags.structural));
+    v.extend(entry_jobs(plan, "C17", "growth", t.pick(2, 12, 0), |d| !d.flags.coded && plain(d) && d.flags.heap));
     v
 }
 
